@@ -114,7 +114,7 @@ _orig_decode = ayy._decode_metadata
 
 
 def _decode_stub(encoded):
-    if encoded and encoded[0] == 's' and encoded in SITES:
+    if encoded and encoded in SITES:
         kw = dict(SITES[encoded])
         md = kw.pop('metadata', None)
         kw['metadata'] = dict(md) if md else {}
@@ -139,7 +139,7 @@ def _encode_stub(metadata):
                 user[k] = v
         if user:
             kw['metadata'] = user
-        key = 's%d_enc' % len(SITES)
+        key = '80ff%06x' % len(SITES)      # looks like an encoded pickle ('80' + hex digits), never equals a real one ('8003..'/'8004..')
         SITES[key] = kw
         return key
     return _orig_encode(metadata)
@@ -155,7 +155,7 @@ def site(name, flags, metadata=None):
         kw = dict(flags)
         if metadata:
             kw['metadata'] = metadata
-        key = 's%d_%s' % (len(SITES), name)     # unique per rendering: two renderings never share a table entry
+        key = '80ff%06x' % len(SITES)     # unique per rendering: two renderings never share a table entry; same alphabet as the real codec
         SITES[key] = kw
         return '!metadata:' + key
     md = dict(metadata or {})
@@ -273,7 +273,7 @@ def same_dump(t1, t2):
     """textual equality of two dumps modulo the names of codec-stub tokens (under the tracer every encoded
     metadata dict gets a fresh token name; natively both texts hold pickle hex and are compared verbatim)"""
     import re
-    pat = re.compile(r'(s\d+_[A-Za-z0-9]+)')
+    pat = re.compile(r'(80ff[0-9a-f]{6})')
     p1, p2 = pat.split(t1), pat.split(t2)
     if len(p1) != len(p2):
         return False
